@@ -95,6 +95,10 @@ type ConfigResult struct {
 	Obs            []Ob           `json:"obligations"`
 	Error          string         `json:"error,omitempty"`
 	WallS          float64        `json:"wall_s"`
+	// Renames: symbols that were renamed with respect to the committed baseline and were
+	// analysed under their baseline names (an/rename.go).
+	Renames    []string `json:"renames,omitempty"`
+	RenameNote string   `json:"rename_note,omitempty"`
 }
 
 func WriteJSON(path string, v any) error {
